@@ -3,6 +3,7 @@
 //! canonicalised output) for the Lean driver.  See /verif/DESIGN.md section 5.
 mod c06;
 mod c07;
+mod c09;
 mod c10;
 mod c11;
 mod c12;
@@ -185,6 +186,7 @@ fn main() {
             "C06" => c06::replay(&prop, &line, &mut out),
             "C07" | "C08" => c07::replay(&prop, &line, &mut out),
             "C11" => c11::replay(&line, &mut out),
+            "C09" => c09::replay(&line, &mut out),
             "C10" => c10::replay(&line, &mut out),
             "C12" => c12::replay(&line, &mut out),
             "C13" => c13::replay(&line, &mut out),
@@ -210,6 +212,7 @@ fn main() {
         "C06" => c06::run(&prop, &opts, &mut out),
         "C07" | "C08" => c07::run(&prop, &opts, &mut out),
         "C11" => c11::run(&opts, &mut out),
+        "C09" => c09::run(&opts, &mut out),
         "C10" => c10::run(&opts, &mut out),
         "C12" => c12::run(&opts, &mut out),
         "C13" => c13::run(&opts, &mut out),
